@@ -18,6 +18,20 @@ Theorem C02_split_pattern :
 Proof. exact exception_is_last_in_its_pattern. Qed.
 Print Assumptions C02_split_pattern.
 
+(* under every unbounded repetition of the source's patterns the alternatives start with different characters
+   (decided over the Latin-1 code points), and such alternatives never both match at one position, so a loop over
+   them has one iteration history per subject and a failing continuation cannot make the matcher try exponentially many *)
+Theorem C02_exclusive_alternatives :
+  forallb (fun nr => loop_alts_disjoint latin1 (re_ast (snd nr))) all_regexes = true.
+Proof. exact loops_have_exclusive_alternatives. Qed.
+Print Assumptions C02_exclusive_alternatives.
+
+Theorem C02_exclusive_alternatives_sound : forall a b k k' i p x t c r1 r2,
+  nullable a = false -> nullable b = false -> first a x && first b x = false ->
+  exec a k i p (x :: t) c = Some r1 -> exec b k' i p (x :: t) c = Some r2 -> False.
+Proof. exact alternatives_exclusive. Qed.
+Print Assumptions C02_exclusive_alternatives_sound.
+
 (* no unbounded repetition over a body that can match the empty string *)
 Theorem C02_no_nullable_loop_body : forallb (fun nr => no_nullable_loop (re_ast (snd nr))) all_regexes = true.
 Proof. exact no_nullable_loop_bodies. Qed.
